@@ -428,6 +428,13 @@ Definition index_len (r : str) : nat :=
   let n := fst (take_while is_digit r1) in
   if Nat.eqb n 0 then 0 else m + n.
 
+(** [int(text)] of an index raises ValueError beyond CPython's int/str digit
+    limit ([sys.get_int_max_str_digits()], 4300 by default; the sign does not
+    count): the lexer then reports "array index out of range" (fix C02/0024). *)
+Definition max_index_digits : nat := 4300.
+Definition index_too_long (r : str) (n : nat) : bool :=
+  max_index_digits <? n - fst (opt_char 45 r).
+
 Definition match_token (r : str) : option (tkind * nat) :=
   match match_float r with Some n => Some (TSym KFloat, n) | None =>
   match match_int r with Some n => Some (TSym KInt, n) | None =>
@@ -591,6 +598,7 @@ Fixpoint path_loop (fuel : nat) (t : st) (top : ppath) (below : list ppath) : re
         else if shorthand then
           let n := index_len (rest (pos t3)) in
           if negb (n =? 0) then
+            if index_too_long (rest (pos t3)) n then syn (pos t3) else   (* fix C02/0024 *)
             let p := pos t3 + n in
             (* fix C17/0005: the stop moves past the index, as for a property name *)
             path_loop f (set_both t3 p) (pp_stop (pp_push top (ESegInt (int_of_str (sub (pos t3) p)))) p) below
@@ -620,6 +628,7 @@ Fixpoint path_loop (fuel : nat) (t : st) (top : ppath) (below : list ppath) : re
           else
             let n := index_len (rest (pos t3)) in
             if negb (n =? 0) then
+              if index_too_long (rest (pos t3)) n then syn (pos t3) else   (* fix C02/0024 *)
               let p := pos t3 + n in
               do t5 <- ignore_ws (set_both t3 p) ;;
               do t6 <- expect_rbracket t5 ;;
